@@ -264,7 +264,8 @@ def _short(case):
 
 
 def check_case(case, env):
-    """Evaluate one case on the four paths; raises Failure. Returns (expect kind, list of paths evaluated)."""
+    """Evaluate one case on the four paths; raises Failure. Returns (expect kind, paths evaluated, lossy output)
+    or None when the case was rejected."""
     from mako.template import Template
 
     ev = env.ev
@@ -281,6 +282,7 @@ def check_case(case, env):
 
     ref_u = None
     decoded = None
+    lossy = False
     if exp[0] == "same":
         decoded = exp[1]
         try:
@@ -308,6 +310,10 @@ def check_case(case, env):
                 want_r = ["bytes", ref_u.encode(oe, errs).hex()]
             except UnicodeEncodeError as e:
                 want_r = ["uee", e.encoding, e.object, e.start, e.end, e.reason]
+            try:
+                ref_u.encode(oe)
+            except UnicodeEncodeError:
+                lossy = True
 
     fn_a = os.path.join(env.d, tag + "_a.html")
     fn_b = os.path.join(env.d, tag + "_b.html")
@@ -401,7 +407,7 @@ def check_case(case, env):
                 os.unlink(modobs["modfile"])
             except OSError:
                 pass
-    return exp[0], done
+    return exp[0], done, lossy
 
 
 def _unhex(r):
@@ -412,7 +418,7 @@ def _unhex(r):
 
 def record(case, res, ev):
     """Evidence for one evaluated case (4 evaluations, one per path)."""
-    kind, done = res
+    kind, done, lossy = res
     negative = kind == "raise"
     conflict = case["style"] == "conflict" or case.get("neg") == "bom-contradicted"
     nt = bool((case.get("na_kinds", 0) >= 2 and case["codec"] != "utf-8") or conflict)
@@ -428,8 +434,8 @@ def record(case, res, ev):
         ev.label("junk-bytes:" + ("undecodable" if negative else "decodable"))
     if nt:
         ev.label("nontrivial-case")
-    if not negative and case["oe"] and case.get("v") is not None:
-        ev.label("output-encoded")
+    if not negative and case["oe"]:
+        ev.label("output-encoded:" + ("error-handler-used" if lossy else "all-encodable"))
 
 
 # ---------------------------------------------------------------------------------------------------------
@@ -490,7 +496,7 @@ class Doc:
             self.emit("<%%text>%s</%%text>" % seg[1], seg[1], "texttag", seg[1])
         elif k == "if":
             self.line_start()
-            self.emit("%% if '%s' != '?':\n%s\n%% endif\n" % (seg[1], seg[2]), seg[2] + "\n", "control-if", seg[1], seg[2])
+            self.emit("%% if '%s' != 'zzzzzzz':\n%s\n%% endif\n" % (seg[1], seg[2]), seg[2] + "\n", "control-if", seg[1], seg[2])
         elif k == "for":
             self.line_start()
             self.emit("%% for c%d in '%s':\n${c%d}\n%% endfor\n" % (i, seg[1], i), "".join(c + "\n" for c in seg[1]),
@@ -861,7 +867,7 @@ def run(ctx):
         ctx.pmap(shard_sweep, tasks)
     if part in (None, "random"):
         reps = ctx.pick(1, 4)
-        n = ctx.pick(80, 600)
+        n = ctx.pick(64, 500)
         tasks = [(c, s, ctx.shard_seed("%s/%s/%d" % (c, s, r), "random"), n) for r in range(reps) for c, s in cells]
         ctx.pmap(shard_random, tasks)
     # grid coverage: 11 codecs x 5 styles x 4 paths
